@@ -2995,7 +2995,10 @@ impl<'a> Model<'a> {
             None => {
                 let style_index = cell.get_style();
                 let style = self.workbook.styles.get_style(style_index)?;
-                if style.quote_prefix {
+                // The apostrophe marks a text that would otherwise be read as something else:
+                // it is shown for texts only (a number or an empty cell whose style carries
+                // the flag would become a text if it were typed back with it)
+                if style.quote_prefix && matches!(cell, Cell::SharedString { .. }) {
                     Ok(format!(
                         "'{}",
                         cell.get_localized_text(
